@@ -132,8 +132,10 @@ def run(prog: Program, chk: Check):
         vals = [norm(v) for v in st.get(fld, [])]
         Mr.decide(bool(vals) and all(v in okvals for v in vals), fkey(cm, f"module.{fld}"), where(cm), f"module.{fld} <- {vals}",
                   f"module.{fld} is set from {vals or 'nothing'}, expected one of {sorted(okvals)}")
-    extra = set(st) - set(want_m)
-    Mr.decide(not extra, fkey(cm, "no-other-field"), where(cm), "no other Module field is written", f"connect_module also writes {sorted(extra)}")
+    # what else connect_module may not touch: the fields that identify the connection itself.  Other attributes (delivery
+    # statistics, anything new) are not identity or options and belong to other properties (C05 / C14)
+    extra = set(st) & {"uid", "conn", "address", "header_cls", "subs"}
+    Mr.decide(not extra, fkey(cm, "no-other-field"), where(cm), "the connection's own identity (uid, conn, address, header_cls, subs) is not rewritten", f"connect_module rewrites the connection's own {sorted(extra)}")
     g = C.build(cm.node)
     gs = flow.guard_states(g)
     adds = [n for n in g.nodes for c in node_calls(n) if is_method_call(c, "add") and path_of(recv_of(c)) == "self.logger_modules"]
